@@ -147,6 +147,68 @@ static void run(Src &s) {
       VF_CHECK(vals == want || empty_ok, "wrong-values", id << ": values " << join_show(vals) << "expected " << join_show(want));
     }
   }
+  // the same relative name means another file after the working directory has changed
+  if (s.chance(12)) {
+    g_case.tag("relative_name_after_chdir");
+    static const char *RN[3] = {"f2.conf", "rel/f2.conf", "./rel/f2.conf"};
+    const char *rn = RN[s.below(3)];
+    struct Back {
+      ~Back() {
+        if (chdir(g_scr.dir.c_str()) != 0) perror("chdir");
+      }
+    } back;
+    for (int round = 0; round < 2; round++) {
+      std::string cwd = g_scr.dir + (round == 0 ? "/cwdA" : "/cwdB");
+      mkdir_p(cwd + "/rel");
+      std::string body = std::string(round == 0 ? "" : "# other file\n\n") + "where=" + (round == 0 ? "A" : "B") + "\n";
+      std::string rel = rn;
+      if (rel.compare(0, 2, "./") == 0) rel = rel.substr(2);
+      write_file(cwd + "/" + rel, body);
+      VF_CHECK(chdir(cwd.c_str()) == 0, "harness", "chdir");
+      econf_file *k2 = nullptr;
+      econf_err e2 = econf_readFile(&k2, rn, "=", "#");
+      VF_CHECK(e2 == ECONF_SUCCESS && k2, "read-failed", "econf_readFile('" << rn << "') in " << cwd << " rc=" << e2);
+      char *p2 = econf_getPath(k2);
+      std::string got = p2 ? p2 : "<NULL>";
+      free(p2);
+      econf_ext_value *ev = nullptr;
+      econf_err e3 = econf_getExtValue(k2, nullptr, "where", &ev);
+      std::string evfile = e3 == ECONF_SUCCESS && ev && ev->file ? ev->file : "<none>";
+      uint64_t evline = e3 == ECONF_SUCCESS && ev ? ev->line_number : 0;
+      std::string evval = e3 == ECONF_SUCCESS && ev && ev->values && ev->values[0] ? ev->values[0] : "<none>";
+      if (ev) econf_freeExtValue(ev);
+      econf_freeFile(k2);
+      std::string want = cwd + "/" + rel;
+      VF_CHECK(got == want, "wrong-path", "econf_getPath = '" << got << "' for '" << rn << "' read in " << cwd << ", expected '" << want << "'");
+      VF_CHECK(evfile == want && evline == (round == 0 ? 1u : 3u) && evval == (round == 0 ? "A" : "B"), "wrong-path",
+               "'" << rn << "' read in " << cwd << ": extended value reports file '" << evfile << "' line " << evline << " value '" << evval << "'");
+    }
+  }
+  // a layered read that merges several files has no path either, whatever the later files contain
+  if (s.chance(15)) {
+    g_case.tag("layered_merge_result");
+    std::string l0 = g_scr.dir + "/L0", l1 = g_scr.dir + "/L1";
+    mkdir_p(l0);
+    mkdir_p(l1 + "/vfp.conf.d");
+    write_file(l0 + "/vfp.conf", f.text());
+    size_t later = s.below(4);  // later file: empty, comments only, a key-less section, one key
+    const std::string cc(1, f.C.empty() ? '#' : f.C[0]);
+    const std::string LT[4] = {"", cc + " nothing\n" + cc + "k=v\n", "[empty]\n", f.cls == DC_BLANK ? "[zz]\nlater 1\n" : "[zz]\nlater=1\n"};
+    write_file(l1 + "/vfp.conf.d/10-later.conf", LT[later]);
+    if (later < 3) g_case.tag("later_file_without_entries");
+    econf_file *lk = nullptr;
+#pragma GCC diagnostic push
+#pragma GCC diagnostic ignored "-Wdeprecated-declarations"
+    econf_err le = econf_readDirs(&lk, l0.c_str(), l1.c_str(), "vfp", "conf", f.D.c_str(), f.C.c_str());
+#pragma GCC diagnostic pop
+    VF_CHECK(le == ECONF_SUCCESS && lk, "read-failed", "econf_readDirs of the same file plus a drop-in rc=" << le);
+    char *lp = econf_getPath(lk);
+    std::string lps = lp ? lp : "<NULL>";
+    free(lp);
+    econf_freeFile(lk);
+    unlink((l1 + "/vfp.conf.d/10-later.conf").c_str());
+    VF_CHECK(lps == "", "wrong-path", "econf_getPath(result of a layered read of two files, later file kind " << later << ") = '" << lps << "' expected ''");
+  }
   // a merge result has no path
   if (s.chance(20)) {
     econf_file *m = nullptr;
